@@ -6,7 +6,7 @@ import random
 
 import common as C
 
-LEAN_MODULES = ["Verif.Inv.ExecProto", "Verif.Props.C10"]
+LEAN_MODULES = ["Verif.Inv.ExecProto", "Verif.Inv.ExecFifo", "Verif.Props.C10"]
 TRUSTED_BASE = [
     "modelled, not verified: async_task by its contract (an idle task woken becomes scheduled and its runnable goes to the schedule function once; waking a scheduled or completed task does nothing; run() polls once; a completed task is never scheduled again; dropping a Runnable drops the future), std mpsc as a FIFO, AtomicBool swap/store as single steps, eventfd as an atomic counter",
     "futures used by the harness are manual (poll counts, stores its waker, completes iff its flag is set) and never wake themselves from inside poll; 'polled and dropped only on the loop thread' is observed by the futures themselves (thread id at poll/drop)",
